@@ -524,6 +524,10 @@ func (p *prog) opUploadPart(u *upload) {
 		}
 	}
 	size, class := p.chooseSize(u, n)
+	if ns := u.numbers(); len(ns) > 0 && p.r.Intn(6) == 0 {
+		p.opRefusedReupload(u, ns[p.r.Intn(len(ns))])
+		return
+	}
 	if old := u.parts[n]; old != nil {
 		class += ":re-upload"
 		p.kinds["re-upload-part"] = true
@@ -549,6 +553,43 @@ func (p *prog) opUploadPart(u *upload) {
 		p.viol("upload-part:etag", map[string]any{"part": n, "size": size, "want": want, "got": got})
 	}
 	p.afterMutation(u, "upload-part")
+}
+
+// opRefusedReupload: a re-upload of an existing part number that the gateway refuses (one false integrity assertion):
+// "the most recent SUCCESSFUL upload of each listed part" - the part stays what it was, in data, ETag and size.
+func (p *prog) opRefusedReupload(u *upload, n int) {
+	body := p.bytes(1 + p.r.Intn(3000))
+	rq := &s3c.Req{Method: "PUT", Path: s3c.ObjPath(p.bucket, u.key), Query: s3c.Q("partNumber", fmt.Sprint(n), "uploadId", u.id), Body: body}
+	other := []byte("not the body that is sent")
+	kind := []string{"checksum-crc32", "checksum-sha256", "checksum-crc64nvme", "content-md5", "trailer-crc32"}[p.r.Intn(5)]
+	switch kind {
+	case "checksum-crc32":
+		rq.Header = s3c.H{{"X-Amz-Checksum-Crc32", s3c.Checksum("crc32", other)}}
+	case "checksum-sha256":
+		rq.Header = s3c.H{{"X-Amz-Checksum-Sha256", s3c.Checksum("sha256", other)}}
+	case "checksum-crc64nvme":
+		rq.Header = s3c.H{{"X-Amz-Checksum-Crc64nvme", s3c.Checksum("crc64nvme", other)}}
+	case "content-md5":
+		rq.Header = s3c.H{{"Content-MD5", s3c.MD5B64(other)}}
+	case "trailer-crc32":
+		rq.Stream = &s3c.Stream{Mode: s3c.StreamUnsignTr, ChunkSizes: []int{1024}, TrailerName: "x-amz-checksum-crc32", TrailerVal: s3c.Checksum("crc32", other)}
+	}
+	p.kinds["refused-re-upload-part"] = true
+	p.logf("upload-part U%d n=%d size=%d (re-upload with a false %s: to be refused)", u.n, n, len(body), kind)
+	resp := p.req("upload-part", false, rq)
+	if resp.Err != nil {
+		return
+	}
+	p.result("%s", resp)
+	if resp.OK() {
+		// (whether it should have been refused is C06's business; here the part is simply the new one)
+		p.c.Observe("re-upload of a part with a false " + kind + " was acknowledged")
+		p.setPart(u, n, body)
+		p.afterMutation(u, "upload-part")
+		return
+	}
+	p.c.Distinct("op|upload-part|refused-re-upload:" + kind)
+	p.afterMutation(u, "refused-re-upload-part")
 }
 
 func (p *prog) setPart(u *upload, n int, body []byte) *part {
